@@ -160,8 +160,9 @@ def corr_loop(ck: core.Check, drv) -> None:
 
 
 def corr_looprun(ck: core.Check, drv) -> None:
-    """`loopRun` / `stackScan` (the Loop semantics the theorems quantify over) vs. onnxruntime: trip
-    counts 0-3, initial condition, per-iteration conditions, shape-preserving and doubling bodies."""
+    """`loopRun` / `stackScan` / `emptyScanOk` (the Loop semantics the theorems quantify over) vs.
+    onnxruntime: trip counts 0-3, initial condition, per-iteration conditions, shape-preserving and
+    doubling bodies, the carried value declared with unknown or with constant dims."""
     import spox.opset.ai.onnx.v17 as op
 
     cases = []
@@ -170,14 +171,21 @@ def corr_looprun(ck: core.Check, drv) -> None:
             for c0 in (True, False):
                 for conds in ([True, True, True], [False, True, True], [True, False, True], [True, True, False]):
                     for shape in ([2], [1, 3], [0]):
-                        cases.append({"body": kind, "M": M, "c0": c0, "conds": conds, "v0": [{"e": "f32", "s": shape}]})
+                        for declared in ("unknown", "const"):
+                            if declared == "const" and kind == "double":
+                                continue  # a doubling body contradicts a constant declared shape
+                            cases.append({"body": kind, "M": M, "c0": c0, "conds": conds, "declared": declared,
+                                          "v0": [{"e": "f32", "s": shape}]})
     model = drv.ask_many("C06", [dict(c, k="looprun") for c in cases])
-    mism = ran = 0
+    mism = ran = zero = 0
     sessions: dict = {}
+    empties = []
     for c, mo in zip(cases, model):
-        key = (c["body"], tuple(c["conds"]), len(c["v0"][0]["s"]))
+        shape = c["v0"][0]["s"]
+        decl = list(shape) if c["declared"] == "const" else [None] * len(shape)
+        key = (c["body"], tuple(c["conds"]), json.dumps(decl))
         if key not in sessions:
-            args = P.make_args({"x": L.ty_from_json({"e": "f32", "s": [None] * len(c["v0"][0]["s"])}),
+            args = P.make_args({"x": L.ty_from_json({"e": "f32", "s": decl}),
                                 "m": L.ty_from_json({"e": "i64", "s": []}), "c": L.ty_from_json({"e": "bool", "s": [1]})})
             cc = op.const(np.array(c["conds"] + [True] * 4, dtype=np.bool_))
             empty = op.const(np.array([], dtype=np.int64))
@@ -193,7 +201,7 @@ def corr_looprun(ck: core.Check, drv) -> None:
                 outs = op.loop(args["m"], args["c"], v_initial=[args["x"]], body=body)
             m, _ = P.build_exposed(args, list(outs))
             sessions[key] = P._session(m.SerializeToString())
-        feed = {"x": np.zeros(c["v0"][0]["s"], np.float32), "m": np.array(c["M"], np.int64), "c": np.array([c["c0"]], np.bool_)}
+        feed = {"x": np.zeros(shape, np.float32), "m": np.array(c["M"], np.int64), "c": np.array([c["c0"]], np.bool_)}
         try:
             res = [L.val_of(r) for r in sessions[key].run(None, feed)]
         except Exception:  # noqa: BLE001
@@ -203,12 +211,68 @@ def corr_looprun(ck: core.Check, drv) -> None:
         ok = run is not None and run["final"] == res[:1]
         if ok and run["iterations"] >= 1:
             ok = run["scans"] == res[1:]
+        elif ok:  # zero iterations: the scan output must satisfy the runtime spec `emptyScanOk`
+            zero += 1
+            slice_ty = {"e": "f32", "s": decl} if c["body"] == "id" else {"e": "i64", "s": []}
+            empties.append((c, res[1], slice_ty))
         ck.count(("looprun", json.dumps(c)))
         if not ok:
             mism += 1
             if mism <= 3:
                 ck.broken("correspondence", "loopRun runtime-spec-vs-onnxruntime", f"case={json.dumps(c)} model={json.dumps(mo)} onnxruntime={json.dumps(res)}")
-    ck.cov["looprun_correspondence"] = {"cases": len(cases), "onnxruntime_accepted": ran, "mismatches": mism}
+    verdicts = drv.ask_many("C06", [{"k": "emptyscan", "val": w, "ty": t} for _, w, t in empties])
+    for (c, w, t), v in zip(empties, verdicts):
+        if v.get("ok") is not True:
+            mism += 1
+            ck.broken("correspondence", "emptyScanOk runtime-spec-vs-onnxruntime", f"case={json.dumps(c)} scan output={w} declared slice type={t} model={v}")
+    ck.cov["looprun_correspondence"] = {"cases": len(cases), "onnxruntime_accepted": ran, "zero_iteration_cases": zero, "mismatches": mism}
+
+
+def corr_nontensor(ck: core.Check, drv) -> None:
+    """Sequence / Optional typed inputs (outside `Ty`): each routine raises (class compared) or hands
+    the type through; a passed-through non-tensor type is then tried under onnxruntime — the property
+    only speaks about it if some runtime value exists."""
+    from spox import Optional as SOptional
+    from spox import Sequence as SSequence
+    from spox import Tensor, argument
+
+    mism = cases = loaded = 0
+    for name in L.MODELLED:
+        op = L.OPS[name]
+        want = drv.ask("C06", {"k": "nontensor", "op": name}).get("outcome")
+        for mk in (SSequence, SOptional):
+            for pos in range(len(op.inputs)):
+                cases += 1
+                ck.count(("nontensor", name, mk.__name__, pos))
+                with warnings.catch_warnings():
+                    warnings.simplefilter("ignore")
+                    vs = [argument(Tensor(L.ELEM[op.in_elems[i][0]], (2, 2)[: min(2, op.max_rank[i])])) for i in range(len(op.inputs))]
+                    vs[pos] = argument(mk(Tensor(np.float32, (2,))))
+                    try:
+                        out = op.ctor()(*vs, **op.kwargs(op.attr_classes()[0]))
+                        outs = list(out) if isinstance(out, (tuple, list)) else [out]
+                        got = "passThrough" if all(o.type == vs[pos].type for o in outs) else "other:" + ",".join(str(o.type) for o in outs)
+                    except Exception as e:  # noqa: BLE001
+                        got, outs = type(e).__name__, []
+                if got != want:
+                    mism += 1
+                    ck.broken("correspondence", f"nonTensorOutcome {name} model-vs-constructor", f"{mk.__name__} at input {pos}: model={want} real={got}")
+                if outs:  # can any runtime produce a value for the claimed type?
+                    try:
+                        import spox
+
+                        names = {f"i{k}": v for k, v in enumerate(vs)}
+                        with warnings.catch_warnings():
+                            warnings.simplefilter("ignore")
+                            m = spox.build(names, {f"o{k}": o for k, o in enumerate(outs)})
+                        P._session(m.SerializeToString())
+                        loaded += 1
+                        ck.failure(f"{name}:non-tensor-input:accepted-by-runtime:unexplained",
+                                   f"{name} on a {mk.__name__} input: reported {outs[0].type} and onnxruntime loads the model",
+                                   {"kind": "nontensor", "op": name, "type": mk.__name__, "pos": pos})
+                    except Exception:  # noqa: BLE001
+                        pass
+    ck.cov["nontensor_correspondence"] = {"cases": cases, "mismatches": mism, "models_accepted_by_runtime": loaded}
 
 
 def _compress_k(feeds, axis) -> int:
@@ -361,6 +425,27 @@ def oracle_single(ck: core.Check) -> dict:
     return stats
 
 
+def oracle_scan(ck: core.Check) -> dict:
+    """Scan programs with states of rank 0-2 and scan inputs of rank 1-3 (distinct constant dims)."""
+    stats = {"programs": 0, "constructor_rejected": 0, "runs": 0, "runs_refused_by_runtime": 0, "vars_checked": 0}
+    for sc in P.SCAN_CASES:
+        case = dict(sc, kind="scan")
+        st = P.run_scan(case, ck.rng, SIZES, max_inst=ck.pick(3, 6))
+        stats["programs"] += 1
+        if st.get("rejected"):
+            stats["constructor_rejected"] += 1
+            stats.setdefault("rejections", []).append(st.get("error", ""))
+        stats["runs"] += st["runs"]
+        stats["runs_refused_by_runtime"] += st["refused"]
+        stats["vars_checked"] += st["checked"]
+        ck.count(("scan", json.dumps(sc)) if st["checked"] else None)
+        report(ck, st["fails"], case)
+    if stats["vars_checked"] == 0:
+        ck.broken("correspondence", "Scan programs not observable",
+                  f"none of the {stats['programs']} Scan programs could be built and run: {stats.get('rejections', [])[:2]}")
+    return stats
+
+
 def oracle_programs(ck: core.Check) -> dict:
     rng = ck.rng
     stats = {"programs": 0, "build_failed": 0, "runs": 0, "runs_refused_by_runtime": 0, "vars_checked": 0,
@@ -428,10 +513,12 @@ def run(ck: core.Check):
         _facet(ck, "loopRun correspondence", corr_looprun, ck, drv)
         ck.log("runtime-spec correspondence done")
         _facet(ck, "conforms/strip correspondence", corr_conf, ck, drv)
+        _facet(ck, "non-tensor inputs correspondence", corr_nontensor, ck, drv)
 
     # the model-free oracle runs whatever happened above
     ck.cov["oracle_single"] = _facet(ck, "single-operator oracle", oracle_single, ck)
     ck.log("single-operator oracle done")
+    ck.cov["oracle_scan"] = _facet(ck, "Scan oracle", oracle_scan, ck)
     ck.cov["oracle_programs"] = _facet(ck, "program oracle", oracle_programs, ck)
     ck.log("program oracle done")
     _facet(ck, "witness replay", P.replay_known, ck)
@@ -469,8 +556,14 @@ def replay(ck: core.Check, doc) -> bool:
         st = P.run_single(case, rng, SIZES, max_inst=8, extra_feeds=extra)
     elif case.get("kind") == "program":
         st = P.run_program(case, SIZES, max_inst=6, extra_feeds=extra)
+    elif case.get("kind") == "scan":
+        st = P.run_scan(case, rng, SIZES, max_inst=6, extra_feeds=extra)
     elif case.get("kind") == "witness":
         st = P.run_witness(case)
+    elif case.get("kind") == "nontensor":
+        ck2 = core.Check("C06", "quick", 0)
+        corr_nontensor(ck2, ck2.driver())
+        st = {"fails": [{"key": f["key"], "what": f["what"]} for f in ck2.failures]}
     else:
         raise ValueError(f"unknown replay kind {case.get('kind')}")
     want = doc.get("key")
